@@ -93,8 +93,10 @@ prop("C08", "other",
      witnesses=["TY-TAKE-MUT", "TY-PRIVATE"], assumptions=TRUST)
 prop("C13", "other",
      ["EBR-PIN-VALIDATE", "EBR-ADVANCE", "EBR-EXPIRY", "EBR-SEAL-FRESH", "EBR-COLLECT-OUTERMOST", "EBR-GUARD-COUNT",
-      "CW-DEFERRED-ONLY"],
-     [SCHED], assumptions=TRUST)
+      "CW-DEFERRED-ONLY", "TY-SIG"],
+     # "anything unlinked during a critical section's lifetime outlives that critical section": what the user holds on to
+     # across a reactivation is part of it - the receivers of reactivate / reactivate_after (S-C13-10)
+     [SCHED], witnesses=["TY-REACTIVATE-MUT", "TY-SNAPSHOT-GUARD"], assumptions=TRUST)
 prop("C15", "other",
      ["EBR-NO-FORGET", "EBR-FINALIZE-HANDOFF", "EBR-DEFERRED-INLINE", "EBR-QUEUE-DROP", "EBR-QUEUE", "EBR-FLUSH-SCHEDULES",
       "EBR-UNWIND-RESTORE"],
@@ -240,6 +242,13 @@ for _r in ("EBR-REACTIVATE", "EBR-FINALIZE-HANDOFF", "EBR-QUEUE", "EBR-TLS"):
 for _p, _src in (("C02", "C13"), ("C03", "C13"), ("C04", "C15")):
     registry.PROPS[_p]["rules"] += [x for x in registry.PROPS[_src]["rules"] if x not in registry.PROPS[_p]["rules"]]
 
+# every per-thread invariant of the collector (the local bag, the Cell counters, the announced epoch) rests on a participant being
+# used by one thread: a Guard that can be sent to or shared with another thread breaks them all at once (S-C15-10:
+# `unsafe impl Sync for Guard`, deferred functions lost or run twice)
+for _p in ("C13", "C14", "C15", "C17", "C18", "C20", "C02", "C03", "C04"):
+    _w = list(registry.PROPS[_p].get("witnesses") or [])
+    if "TY-GUARD-NOT-SEND" not in _w:
+        registry.PROPS[_p]["witnesses"] = _w + ["TY-GUARD-NOT-SEND"]
 if "EBR-TLS" not in registry.PROPS["C14"]["rules"]:
     registry.PROPS["C14"]["rules"].append("EBR-TLS")
 if _C01_FROM_C02:
